@@ -231,11 +231,26 @@ func (g *G) Model(o ModelOpts) *rm.Model {
 			return &rm.Rewrite{Kind: rm.TTU, Tupleset: ts, Relation: "?"}
 		}
 	}
+	// a leaf operand (a computed userset, a tuple-to-userset, the direct assignment) is used at most
+	// once per relation: `(member but not x) or member` is redundant, nobody writes it, and the
+	// weighted-graph engines mishandle it (findings F29, F37), which is not what the properties are about
+	usedLeaf := map[string]bool{}
+	uleaf := func(self relDecl, res *[]rm.Restriction, depth int) *rm.Rewrite {
+		var l *rm.Rewrite
+		for try := 0; try < 6; try++ {
+			l = leaf(self, res, depth)
+			if k := rewriteKey(l); !usedLeaf[k] {
+				usedLeaf[k] = true
+				return l
+			}
+		}
+		return l
+	}
 	var build func(self relDecl, res *[]rm.Restriction, depth int) *rm.Rewrite
 	build = func(self relDecl, res *[]rm.Restriction, depth int) *rm.Rewrite {
 		x := g.Intn(100)
 		if depth >= 2 || x < 45 {
-			return leaf(self, res, depth)
+			return uleaf(self, res, depth)
 		}
 		// distinct operands only (the DSL lets one write `a or a`, but nobody does; the weighted graph
 		// rejects some of those shapes with an internal error, which is not what the properties are about)
@@ -271,7 +286,7 @@ func (g *G) Model(o ModelOpts) *rm.Model {
 			return distinct(rm.Intersection, 2)
 		default:
 			if !o.Exclusion {
-				return leaf(self, res, depth)
+				return uleaf(self, res, depth)
 			}
 			b, sub := build(self, res, depth+1), build(self, res, depth+1)
 			if rewriteKey(b) == rewriteKey(sub) {
@@ -302,6 +317,9 @@ func (g *G) Model(o ModelOpts) *rm.Model {
 		td := &rm.TypeDef{Name: tn}
 		for _, r := range relsOf[tn] {
 			var res []rm.Restriction
+			for k := range usedLeaf {
+				delete(usedLeaf, k)
+			}
 			rw := build(relDecl{tn, r}, &res, 0)
 			// resolve TTU computed relation names against target types
 			var fix func(rw *rm.Rewrite)
